@@ -368,9 +368,88 @@ def is_generator(fn: ast.AST) -> bool:
     return False
 
 
-def norm_stmt(node: ast.AST, limit: int = 160) -> str:
-    """Line-number-free text of a statement/expression used in stable keys."""
+def function_locals(fn: ast.AST) -> set:
+    """names bound inside fn (not its parameters): the names a behaviour-preserving rename may change."""
+    cached = getattr(fn, "_locals", None)
+    if cached is not None:
+        return cached
+    out = set()
+    for n in ast.walk(fn):
+        if isinstance(n, ast.Name) and isinstance(n.ctx, (ast.Store, ast.Del)):
+            out.add(n.id)
+        elif isinstance(n, ast.ExceptHandler) and n.name:
+            out.add(n.name)
+    if isinstance(fn, (ast.FunctionDef, ast.AsyncFunctionDef)):
+        a = fn.args
+        for p in a.args + a.kwonlyargs + a.posonlyargs + ([a.vararg] if a.vararg else []) + ([a.kwarg] if a.kwarg else []):
+            out.discard(p.arg)
     try:
+        fn._locals = out  # type: ignore[attr-defined]
+    except Exception:  # pragma: no cover
+        pass
+    return out
+
+
+def canon_text(node: ast.AST, text: str = None) -> str:
+    """text of node with the enclosing function's local variable names replaced by positional placeholders
+    ($1, $2, ... in order of first occurrence), so that renaming a local does not change a stable key."""
+    fn = node if isinstance(node, (ast.FunctionDef, ast.AsyncFunctionDef)) else enclosing_function(node)
+    while fn is not None and isinstance(fn, ast.Lambda):
+        fn = enclosing_function(fn)
+    if fn is None:
+        return text if text is not None else ast.unparse(node)
+    locs = function_locals(fn)
+    # locals of enclosing functions too (closures)
+    outer = enclosing_function(fn)
+    while outer is not None:
+        if not isinstance(outer, ast.Lambda):
+            locs = locs | function_locals(outer)
+        outer = enclosing_function(outer)
+    if not locs:
+        return text if text is not None else ast.unparse(node)
+    import copy
+    order = {}
+
+    class R(ast.NodeTransformer):
+        def visit_Name(self, n):
+            if n.id in locs:
+                if n.id not in order:
+                    order[n.id] = f"${len(order) + 1}"
+                return ast.copy_location(ast.Name(id=order[n.id], ctx=n.ctx), n)
+            return n
+
+    c = copy.deepcopy(node) if not hasattr(node, "_parent") else _copy_without_parents(node)
+    c = R().visit(c)
+    return c
+
+
+def _copy_without_parents(node):
+    import copy
+    memo = {}
+
+    def strip(n):
+        for x in ast.walk(n):
+            if hasattr(x, "_parent"):
+                memo[id(x)] = x._parent
+                del x._parent
+    def restore(n):
+        for x in ast.walk(n):
+            if id(x) in memo:
+                x._parent = memo[id(x)]
+    strip(node)
+    try:
+        return copy.deepcopy(node)
+    finally:
+        restore(node)
+
+
+def norm_stmt(node: ast.AST, limit: int = 160, canon: bool = True) -> str:
+    """Line-number-free, local-name-free text of a statement/expression used in stable keys."""
+    try:
+        if canon:
+            c = canon_text(node)
+            if isinstance(c, ast.AST):
+                node = c
         if isinstance(node, ast.If):
             s = "if " + ast.unparse(node.test)
         elif isinstance(node, ast.While):
